@@ -64,6 +64,8 @@ def render_stmt(s):
     k = s[0]
     if k == 'sameline':          # ('sameline', ('label', name), stmt): the label written in front of the statement it labels
         return f'{s[1][1]}: ' + render_stmt(s[2]).strip()
+    if k == 'joined':            # ('joined', stmt, stmt, ...): several instructions written on one line
+        return '    ' + ' '.join(render_stmt(t).strip() for t in s[1:])
     if k == 'label':
         return f'{s[1]}:'
     if k == 'const':
@@ -110,10 +112,12 @@ def render_stmt(s):
         return '#else'
     if k == 'endif':
         return '#endif'
-    if k == 'define':
-        return f'#define {s[1]}' + (f' {s[2]}' if s[2] is not None else '')
+    if k == 'define':         # ('define', name, value[, separator]): the separator (default one space) is surface syntax only
+        sep = s[3] if len(s) > 3 else ' '
+        return f'#define{sep}{s[1]}' + (f'{sep}{s[2]}' if s[2] is not None else '')
     if k == 'create_memzone':
-        return f'#create_memzone {s[1]} {s[2]} {s[3]}'
+        sep = s[4] if len(s) > 4 else ' '
+        return f'#create_memzone{sep}{s[1]}{sep}{s[2]}{sep}{s[3]}'
     if k == 'include':
         return f'#include "{s[1]}"'
     if k == 'comment':
@@ -196,8 +200,15 @@ class RefAsm:
         self.dc_used = 0
         self.p = params
         # a label written in front of a statement is the label followed by the statement
-        self.files = {path: [t for st in stmts for t in ((st[1], st[2]) if st[0] == 'sameline' else (st,))]
-                      for path, stmts in files.items()}
+        # ... and statements written on one line ('joined') are those statements one after the other; all keep their source line number
+        self.files, self.linenos = {}, {}
+        for path, stmts in files.items():
+            flat, nums = [], []
+            for lineno, st in enumerate(stmts, 1):
+                parts = (st[1], st[2]) if st[0] == 'sameline' else tuple(st[1:]) if st[0] == 'joined' else (st,)
+                flat += parts
+                nums += [lineno] * len(parts)
+            self.files[path], self.linenos[path] = flat, nums
         self.main = main
         self.incdirs = tuple(incdirs)
         self.res = Result()
@@ -382,7 +393,8 @@ class RefAsm:
         zone = 'GLOBAL'
         region = None
         stack = []      # frames: [parent_active, taken, active, seen_else]
-        for lineno, s in enumerate(self.files[path], 1):
+        for pos, s in enumerate(self.files[path]):
+            lineno = self.linenos[path][pos]
             k = s[0]
             active = outer_active and all(f[2] for f in stack)
             if k in ('if', 'ifdef', 'ifndef'):
